@@ -4,8 +4,23 @@ Open Scope N_scope.
 
 Definition attrs_arg (a : list (bytes * bytes)) : arg := AL (map (fun nv => AL [AB (fst nv); AB (snd nv)]) a).
 
+(* SHA-1 is computed by the model itself (Lib/Sha1.v): the fingerprint of every key, and every
+   signature digest under hash id 2.  The recorded answers (68 2 msg digest) that the shared oracle
+   builder of harness/pgpw.go still writes are NOT consulted; the digests of the other hash
+   functions (MD5, RIPEMD-160, SHA-2) stay recorded answers. *)
+Definition own_digest (o : list arg) (h : N) (msg : bytes) : result bytes :=
+  if h =? 2 then Ok (sha1 msg) else or_digest o h msg.
+Definition params_sha1 (o : list arg) : params :=
+  mkparams sha1 (own_digest o) (or_avail o) (or_prim o) (or_ecok o) (or_rsa_ok o).
+Definition run_inspect_sha1 (input : arg) : arg :=
+  let private := arg_bool (arg_nth 0 input) in
+  let stream := arg_bytes (arg_nth 1 input) in
+  let oracle := arg_list (arg_nth 2 input) in
+  obs_pgp (pgp_key fixed (params_sha1 oracle) private stream).
+
 Definition run_C12 (op : bytes) (input : arg) : arg :=
-  if bytes_eqb op (bs "mpi") then
+  if bytes_eqb op (bs "sha1") then AL [AZ 0; AB (sha1 (arg_bytes (arg_nth 0 input)))]
+  else if bytes_eqb op (bs "mpi") then
     let b := arg_bytes (arg_nth 0 input) in
     match mpi_read b with
     | Ok (m, rest) =>
@@ -18,9 +33,9 @@ Definition run_C12 (op : bytes) (input : arg) : arg :=
     let oracle := arg_list (arg_nth 1 input) in
     match parse_public_key fixed (or_ecok oracle) body with
     | Ok (k, _) =>
-        let fp := fingerprint (or_sha1 oracle) k in
+        let fp := fingerprint sha1 k in
         AL [AZ 0; AL [AB (key_hash_input k); AB fp; AB (N_to_be 8 (key_id_of_fp fp)); AB (key_id_string_of_fp fp);
-                      attrs_arg (describe_key (or_sha1 oracle) k)]]
+                      attrs_arg (describe_key sha1 k)]]
     | Err e => if String.eqb e miss then AL [AZ 8] else AL [AZ 1]
     | Panic _ => AL [AZ 2]
     end
@@ -32,12 +47,83 @@ Definition run_C12 (op : bytes) (input : arg) : arg :=
     | Err _ => AL [AZ 1]
     | Panic _ => AL [AZ 2]
     end
-  else if bytes_eqb op (bs "describe") || bytes_eqb op (bs "describe_x") then run_inspect input
+  else if bytes_eqb op (bs "describe") || bytes_eqb op (bs "describe_x") then run_inspect_sha1 input
   else AL [].
 
 (* ---- the property ---- *)
+
+(* RFC 4880 12.2: "A V4 fingerprint is the 160-bit SHA-1 hash of the octet 0x99, followed by the
+   two-octet packet length, followed by the entire Public-Key packet starting with the version
+   field.  The Key ID is the low-order 64 bits of the fingerprint."  Recomputed here from the
+   octets of the key packet with Lib/Sha1.v, independently of Model/PgpKey.v. *)
+Definition rfc_fingerprint (body : bytes) : bytes :=
+  sha1 (153 :: N_to_be 2 (N.of_nat (length body)) ++ body).
+
+(* FIPS 180-4 appendix / NIST example vectors: the reference of op sha1 where its input is one of them *)
+Definition sha1_known : list (bytes * bytes) :=
+  [([], bs "da39a3ee5e6b4b0d3255bfef95601890afd80709");
+   (bs "abc", bs "a9993e364706816aba3e25717850c26c9cd0d89d");
+   (bs "abcdbcdecdefdefgefghfghighijhijkijkljklmklmnlmnomnopnopq", bs "84983e441c3bd26ebaae4aa1f95129e5e54670f1")].
+
+(* the Fingerprint and Key ID attributes of one printed key against a list of recomputed
+   fingerprints: the Fingerprint must be the upper-case hex of one of them and the Key ID the
+   upper-case hex of ITS last 8 octets.  [first]: it must be the first of the list. *)
+Definition printed_key_ok (first : bool) (fps : list bytes) (attrs : list (bytes * bytes)) : option string :=
+  match attr_lookup (bs "Fingerprint") attrs with
+  | None => Some "no Fingerprint attribute"%string
+  | Some f =>
+      let cands := if first then match fps with x :: _ => [x] | [] => [] end else fps in
+      match find (fun fp => bytes_eqb f (hex_of true fp)) cands with
+      | None => Some "the printed Fingerprint is not the SHA-1 (recomputed by the checker) of 0x99, length, body of a key packet of the input"%string
+      | Some fp =>
+          match attr_lookup (bs "Key ID") attrs with
+          | None => Some "no Key ID attribute"%string
+          | Some k => if bytes_eqb k (hex_of true (drop 12 fp)) then None
+                      else Some "the printed Key ID is not octets 12..19 of the recomputed SHA-1 fingerprint"%string
+          end
+      end
+  end.
+
+Fixpoint printed_subkeys_ok (fps : list bytes) (kids : list info) : option string :=
+  match kids with
+  | [] => None
+  | k :: r =>
+      if is_subkey_child k then
+        match printed_key_ok false fps (i_attrs k) with
+        | Some e => Some e
+        | None => printed_subkeys_ok fps r
+        end
+      else printed_subkeys_ok fps r
+  end.
+
+(* [keys]: the public part of every version-4 key packet of the stream, in stream order, as the
+   harness's structural reader cut it out ((tag body) ...); [strict]: a plain transferable key,
+   whose first key packet is the primary key *)
+Definition check_printed_fingerprints (strict : bool) (keys : list arg) (i : info) : option string :=
+  match keys with
+  | [] => None
+  | _ :: _ =>
+      let fps := map (fun k => rfc_fingerprint (arg_bytes (arg_nth 1 k))) keys in
+      match printed_key_ok strict fps (i_attrs i) with
+      | Some e => Some e
+      | None => printed_subkeys_ok (match fps with _ :: r => if strict then r else fps | [] => [] end) (i_children i)
+      end
+  end.
+
 Definition check_C12 (op : bytes) (input impl : arg) : arg :=
-  if bytes_eqb op (bs "mpi") then
+  if bytes_eqb op (bs "sha1") then
+    (* the observation is crypto/sha1's digest: 20 octets; the published vectors where the input is one *)
+    let b := arg_bytes (arg_nth 0 input) in
+    match impl with
+    | AL [AZ 0%Z; AB d] =>
+        if negb (Nat.eqb (length d) 20) then AS "a SHA-1 digest is not 20 octets"
+        else match find (fun kv => bytes_eqb (fst kv) b) sha1_known with
+             | Some kv => if bytes_eqb (hex_of false d) (snd kv) then AL [] else AS "SHA-1 of a FIPS 180 example message is not the published digest"
+             | None => AL []
+             end
+    | _ => AS "crypto/sha1 failed"
+    end
+  else if bytes_eqb op (bs "mpi") then
     (* reading then writing an MPI reproduces exactly the octets that were consumed *)
     let b := arg_bytes (arg_nth 0 input) in
     match impl with
@@ -61,13 +147,18 @@ Definition check_C12 (op : bytes) (input impl : arg) : arg :=
         else if negb (bytes_eqb hin (153 :: N_to_be 2 (N.of_nat (length body)) ++ body))
         then AS "fingerprint input is not 0x99, 2-octet length, key packet body as it appears in the input (RFC 4880 12.2)"
         else if negb (bytes_eqb fp ref) then AS "fingerprint is not the SHA-1 of the RFC 4880 12.2 input"
+        else if negb (bytes_eqb fp (rfc_fingerprint body)) then AS "fingerprint is not the SHA-1 (recomputed by the checker) of 0x99, length, key packet body"
         else if negb (bytes_eqb kid (drop 12 fp)) then AS "key ID is not the low 64 bits of the fingerprint"
         else if negb (bytes_eqb kids (hex_of true (drop 12 fp))) then AS "key ID string is not the upper-case hex of the key ID"
         else
           (* the attributes, when the harness says which key it wrote: (fpr algo oid bits created) *)
-          match arg_nth 2 (arg_nth 2 input) with
-          | AL (_ :: _) as kr => verdict (key_attrs_ok kr (map attr_of_arg (arg_list attrs)))
-          | _ => AL []
+          match printed_key_ok true [rfc_fingerprint body] (map attr_of_arg (arg_list attrs)) with
+          | Some e => verdict (Some e)
+          | None =>
+              match arg_nth 2 (arg_nth 2 input) with
+              | AL (_ :: _) as kr => verdict (key_attrs_ok kr (map attr_of_arg (arg_list attrs)))
+              | _ => AL []
+              end
           end
     | _ => if wf then AS "well-formed key packet rejected" else AL []
     end
@@ -93,7 +184,18 @@ Definition check_C12 (op : bytes) (input impl : arg) : arg :=
     | AL [AZ 2%Z] => AS "inspection of a PGP key panicked"
     | AL [AZ 0%Z; ia] =>
         if Z.eqb (arg_Z (arg_nth 0 ref)) 0 then AL []
-        else verdict (check_ref private ref (info_of_arg ia))
+        else
+          let i := info_of_arg ia in
+          match check_ref private ref i with
+          | Some e => verdict (Some e)
+          | None =>
+              (* the printed fingerprints and key IDs against the SHA-1 recomputed from the key packets *)
+              match i with
+              | Info [] [] [] => AL []
+              | _ => let kind := arg_Z (arg_nth 0 ref) in
+                     verdict (check_printed_fingerprints (Z.eqb kind 1 || Z.eqb kind 3) (arg_list (arg_nth 4 input)) i)
+              end
+          end
     | _ => AS "inspection failed"
     end
   else AL [].
